@@ -719,7 +719,108 @@ func (c *TermCtx) FCmp(op Op, x, y *Term) *Term {
 			return c.Bool(a == b)
 		}
 	}
+	if op == OFLt || op == OFLe {
+		if r := c.monoFCmp(op, x, y); r != nil {
+			return r
+		}
+	}
 	return c.mk(op, 0, x, y, nil, 0, "")
+}
+
+// monoFCmp rewrites a comparison between a float constant K and g(x) = float64(x)*C (x an unsigned
+// bit-vector, C a positive constant, or C absent) into an exact unsigned bit-vector threshold test.
+// g is monotone non-decreasing in x, so {x : g(x) <= K} is a prefix of the unsigned order and
+// {x : K <= g(x)} a suffix; the threshold is found by native binary search with the same IEEE
+// arithmetic (float64 conversion and multiplication, round to nearest even) that Go performs.
+func (c *TermCtx) monoFCmp(op Op, x, y *Term) *Term {
+	if x.w != WF64 {
+		return nil
+	}
+	decomp := func(t *Term) (*Term, float64, bool) {
+		if t.op == OFFromU && t.w == WF64 {
+			return t.a, 1, true
+		}
+		if t.op == OFMul {
+			if t.a.op == OFFromU && t.b.IsConst() && t.b.FVal() > 0 && !math.IsInf(t.b.FVal(), 0) {
+				return t.a.a, t.b.FVal(), true
+			}
+			if t.b.op == OFFromU && t.a.IsConst() && t.a.FVal() > 0 && !math.IsInf(t.a.FVal(), 0) {
+				return t.b.a, t.a.FVal(), true
+			}
+		}
+		return nil, 0, false
+	}
+	w := 0
+	var bv *Term
+	var cf, k float64
+	gLeft := false
+	if y.IsConst() {
+		b, cc, ok := decomp(x)
+		if !ok {
+			return nil
+		}
+		bv, cf, k, gLeft = b, cc, y.FVal(), true
+	} else if x.IsConst() {
+		b, cc, ok := decomp(y)
+		if !ok {
+			return nil
+		}
+		bv, cf, k, gLeft = b, cc, x.FVal(), false
+	} else {
+		return nil
+	}
+	if math.IsNaN(k) {
+		return c.False
+	}
+	w = int(bv.w)
+	maxv := mask(w)
+	g := func(v uint64) float64 { return float64(v) * cf }
+	var pred func(v uint64) bool
+	if gLeft { // g(x) op K : downward closed
+		if op == OFLt {
+			pred = func(v uint64) bool { return g(v) < k }
+		} else {
+			pred = func(v uint64) bool { return g(v) <= k }
+		}
+		if !pred(0) {
+			return c.False
+		}
+		if pred(maxv) {
+			return c.True
+		}
+		lo, hi := uint64(0), maxv // pred(lo) true, pred(hi) false
+		for hi-lo > 1 {
+			mid := lo + (hi-lo)/2
+			if pred(mid) {
+				lo = mid
+			} else {
+				hi = mid
+			}
+		}
+		return c.Cmp(OUle, bv, c.Const(w, lo))
+	}
+	// K op g(x) : upward closed
+	if op == OFLt {
+		pred = func(v uint64) bool { return k < g(v) }
+	} else {
+		pred = func(v uint64) bool { return k <= g(v) }
+	}
+	if pred(0) {
+		return c.True
+	}
+	if !pred(maxv) {
+		return c.False
+	}
+	lo, hi := uint64(0), maxv // pred(lo) false, pred(hi) true
+	for hi-lo > 1 {
+		mid := lo + (hi-lo)/2
+		if pred(mid) {
+			hi = mid
+		} else {
+			lo = mid
+		}
+	}
+	return c.Cmp(OUle, c.Const(w, hi), bv)
 }
 
 // FFromInt converts a bit-vector to float of sort fw.
